@@ -1,0 +1,110 @@
+//! Hooks for out-of-tree verification harnesses.
+//!
+//! Everything in this module is compiled only with the cargo feature `verif-hooks`.
+//! It re-exports a few crate-private items so that an external harness can drive and observe the real code,
+//! and provides [VecMap], an association-list stand-in for `std::collections::HashMap` that is substituted
+//! in `utils::label` only when the crate is compiled by the Kani model checker (`cfg(kani)`).
+
+use crate::aa::AAFramework;
+use crate::sat::Assignment;
+use crate::utils::LabelType;
+use anyhow::Result;
+
+pub use crate::sat::{BufferedSatSolver, DimacsInstanceRead};
+
+/// The crate-private connected components computer.
+pub type ConnectedComponentsComputer<'a, T> = crate::utils::ConnectedComponentsComputer<'a, T>;
+
+/// Builds an [Assignment] (its constructor is crate-private); needed to implement [crate::sat::SatSolver] outside the crate.
+pub fn new_assignment(values: Vec<Option<bool>>) -> Assignment {
+    Assignment::new(values)
+}
+
+/// Calls the crate-private `AAFramework::new_attack_by_ids` (the function the readers and the component extraction use).
+pub fn new_attack_by_ids<T: LabelType>(
+    af: &mut AAFramework<T>,
+    from: usize,
+    to: usize,
+) -> Result<()> {
+    af.new_attack_by_ids(from, to)
+}
+
+/// Calls the crate-private grounded extension computer.
+pub fn grounded_extension<T: LabelType>(af: &AAFramework<T>) -> Vec<&crate::aa::Argument<T>> {
+    crate::utils::grounded_extension(af)
+}
+
+/// An association list offering the subset of the `HashMap` API used by `LabelSet`.
+///
+/// It replaces `std::collections::HashMap` in `utils::label` under `cfg(kani)` only: hashbrown's probing and the
+/// random hasher state are out of reach of bounded model checking. It deliberately has no iteration API.
+#[derive(Debug)]
+pub struct VecMap<K, V> {
+    entries: Vec<(K, V)>,
+}
+
+impl<K, V> Default for VecMap<K, V> {
+    fn default() -> Self {
+        Self {
+            entries: Vec::new(),
+        }
+    }
+}
+
+/// The entry type of [VecMap].
+pub struct VecMapEntry<'a, K, V> {
+    map: &'a mut VecMap<K, V>,
+    key: K,
+}
+
+impl<K: Eq, V> VecMap<K, V> {
+    pub fn with_capacity(n: usize) -> Self {
+        Self {
+            entries: Vec::with_capacity(n),
+        }
+    }
+
+    pub fn shrink_to_fit(&mut self) {}
+
+    pub fn entry(&mut self, key: K) -> VecMapEntry<'_, K, V> {
+        VecMapEntry { map: self, key }
+    }
+
+    pub fn get(&self, key: &K) -> Option<&V> {
+        let mut i = 0;
+        while i < self.entries.len() {
+            if self.entries[i].0 == *key {
+                return Some(&self.entries[i].1);
+            }
+            i += 1;
+        }
+        None
+    }
+
+    pub fn remove(&mut self, key: &K) -> Option<V> {
+        let mut i = 0;
+        while i < self.entries.len() {
+            if self.entries[i].0 == *key {
+                return Some(self.entries.swap_remove(i).1);
+            }
+            i += 1;
+        }
+        None
+    }
+}
+
+impl<'a, K: Eq, V> VecMapEntry<'a, K, V> {
+    pub fn or_insert_with<F: FnOnce() -> V>(self, f: F) -> &'a mut V {
+        let mut i = 0;
+        while i < self.map.entries.len() {
+            if self.map.entries[i].0 == self.key {
+                return &mut self.map.entries[i].1;
+            }
+            i += 1;
+        }
+        let v = f();
+        self.map.entries.push((self.key, v));
+        let last = self.map.entries.len() - 1;
+        &mut self.map.entries[last].1
+    }
+}
